@@ -344,6 +344,17 @@ def run_tree(case, ctx):
     m = layouts.build(PiecewiseTreeRegressor, params, via, as_numpy_scalars=(case["sub"] // 7) % 3 == 0, decoys=
                       dict(criterion="simple" if crit == "mselin" else "mselin", max_depth=params["max_depth"] + 7,
                            min_samples_leaf=msl_rows + 3, random_state=5))
+    if (case["sub"] // 2) % 3 == 0:
+        # an earlier fit of the same object that the tree refuses (a table of the same shape in another dtype / layout,
+        # holding an infinite value): nothing of that table takes part in the fit that follows
+        Xbad = numpy.array(X, dtype=[numpy.float32, numpy.float64][case["sub"] % 2], order=["C", "F"][(case["sub"] // 4) % 2])
+        Xbad = Xbad * 3.0 + 1.0
+        Xbad[n // 2, 0] = numpy.inf
+        try:
+            m.fit(Xbad, yfit)
+        except Exception:
+            ctx.hit("tree.refused_fit_before")
+            cfg["refused_fit_before"] = str(Xbad.dtype)
     try:
         r = m.fit(Xfit, yfit) if w is None else m.fit(Xfit, yfit, sample_weight=w)
         pred = m.predict(X)
